@@ -242,6 +242,11 @@ func c08build(m *ir.Module, env *c08env, s c08func, name string) *ir.Func {
 		}
 		params = append(params, ir.NewParam(pn, types.I32))
 	}
+	var user *ir.Func
+	if env.noGlobals && len(s.Blocks) > 1 {
+		// the function that holds the addresses of the blocks is listed BEFORE the function itself.
+		user = m.NewFunc("ba."+name, types.Void)
+	}
 	f := m.NewFunc(name, types.I32, params...)
 	if s.usesInvoke() {
 		f.Personality = constant.NewBitCast(env.pers, types.I8Ptr)
@@ -291,7 +296,11 @@ func c08build(m *ir.Module, env *c08env, s c08func, name string) *ir.Func {
 				x.SetName(nm(k == kCallN))
 				cur = x
 			case kStore:
-				blk.NewStore(cur, env.g)
+				if env.noGlobals {
+					blk.NewStore(cur, constant.NewUndef(types.I32Ptr))
+				} else {
+					blk.NewStore(cur, env.g)
+				}
 			case kFence:
 				blk.NewFence(enum.AtomicOrderingSequentiallyConsistent)
 			}
@@ -326,9 +335,39 @@ func c08build(m *ir.Module, env *c08env, s c08func, name string) *ir.Func {
 		for bi := 1; bi < len(blocks); bi++ {
 			bas = append(bas, constant.NewBlockAddress(f, blocks[bi]))
 		}
-		m.NewGlobalDef("ba."+name, constant.NewArray(types.NewArray(uint64(len(bas)), types.I8Ptr), bas...))
+		if user != nil {
+			ub := user.NewBlock("")
+			for _, ba := range bas {
+				ub.NewStore(ba, constant.NewUndef(types.NewPointer(types.I8Ptr)))
+			}
+			ub.NewRet(nil)
+		} else {
+			m.NewGlobalDef("ba."+name, constant.NewArray(types.NewArray(uint64(len(bas)), types.I8Ptr), bas...))
+		}
 	}
 	return f
+}
+
+// c08textNoGlobals rewrites the explicit text of a function for a module WITHOUT global variables:
+// stores go to an undef pointer and the table of block addresses becomes the body of a function
+// `@ba.<name>` written before the function.
+func c08textNoGlobals(text string) string {
+	text = strings.ReplaceAll(text, "i32* @G", "i32* undef")
+	if !strings.HasPrefix(text, "@ba.") {
+		return text
+	}
+	nl := strings.Index(text, "\n")
+	line, rest := text[:nl], text[nl+1:]
+	name := line[len("@ba."):strings.Index(line, " ")]
+	items := line[strings.Index(line, "] [")+3 : len(line)-1]
+	var b strings.Builder
+	fmt.Fprintf(&b, "define void @ba.%s() {\n", name)
+	for _, it := range strings.Split(items, ", i8* ") {
+		it = strings.TrimPrefix(it, "i8* ")
+		fmt.Fprintf(&b, "  store i8* %s, i8** undef\n", it)
+	}
+	b.WriteString("  ret void\n}\n")
+	return b.String() + rest
 }
 
 type c08env struct {
@@ -337,6 +376,22 @@ type c08env struct {
 	ext  *ir.Func
 	pers *ir.Func
 	vv   *ir.Func
+	// noGlobals: the module has no global variable at all (block addresses are held by functions).
+	noGlobals bool
+}
+
+const c08preludeNoGlobals = "declare void @vf()\ndeclare void @vv(i32, ...)\ndeclare i32 @ext(i32)\ndeclare i32 @__gxx_personality_v0(...)\n"
+
+func c08newModuleNoGlobals() (*ir.Module, *c08env) {
+	m := ir.NewModule()
+	e := &c08env{noGlobals: true}
+	e.vf = m.NewFunc("vf", types.Void)
+	e.vv = m.NewFunc("vv", types.Void, ir.NewParam("", types.I32))
+	e.vv.Sig.Variadic = true
+	e.ext = m.NewFunc("ext", types.I32, ir.NewParam("", types.I32))
+	e.pers = m.NewFunc("__gxx_personality_v0", types.I32)
+	e.pers.Sig.Variadic = true
+	return m, e
 }
 
 func c08newModule() (*ir.Module, *c08env) {
@@ -419,6 +474,10 @@ func funcsByName(canon []llcanon.Entity) map[string]string {
 	m := map[string]string{}
 	for _, e := range canon {
 		if e.Kind == "func" {
+			if strings.HasPrefix(e.Name, "@ba.") {
+				m["@"+e.Name[4:]] += "\n" + e.Text
+				continue
+			}
 			m[e.Name] += e.Text
 		}
 	}
@@ -590,6 +649,54 @@ func c08funcBatch(c *fw.Check, shapes []c08func, base int) {
 		}
 	}
 	c.Valid(int64(len(shapes)))
+	// built through the API into a module WITHOUT global variables; the addresses of the blocks
+	// of every function are operands of instructions of a function printed before it.
+	{
+		var b strings.Builder
+		b.WriteString(c08preludeNoGlobals)
+		for i, s := range shapes {
+			b.WriteString(c08textNoGlobals(c08text(s, fmt.Sprintf("f%d", base+i), "explicit")))
+		}
+		refNG, eNG, okNG, _ := fw.AsDis(b.String())
+		if !okNG {
+			fw.Fatalf("C08 no-globals model text rejected by LLVM: %s\n%s", eNG, fw.Trunc(b.String(), 3000))
+		}
+		refF := funcsByName(llcanon.Canon(refNG))
+		m, env := c08newModuleNoGlobals()
+		for i, s := range shapes {
+			c08build(m, env, s, fmt.Sprintf("f%d", base+i))
+		}
+		var printed string
+		if p := fw.Try(func() { printed = m.String() }); p != "" {
+			c.Violation("api-print-panics/no-globals", c08case{Form: "api-no-globals", What: p})
+			return
+		}
+		got, _, ok4, _ := fw.AsDis(printed)
+		if !ok4 {
+			for i, s := range shapes {
+				m1, env1 := c08newModuleNoGlobals()
+				c08build(m1, env1, s, "f0")
+				pr := m1.String()
+				if okL, eL := fw.LLVMAccepts(pr); !okL {
+					report(i, "api-no-globals", "llvm-rejects-printed/api-no-globals/"+sigOf(i), "LLVM rejects the numbering printed for an API-built module without global variables: "+fw.Trunc(eL, 200), pr, "")
+				}
+			}
+			return
+		}
+		gotF := funcsByName(llcanon.Canon(got))
+		for i := range shapes {
+			n := fmt.Sprintf("@f%d", base+i)
+			if gotF[n] != refF[n] {
+				report(i, "api-no-globals", "binding-differs/api-no-globals/"+sigOf(i), "API-built function (module without global variables) prints to something LLVM reads differently from the model text", c08textNoGlobals(single(i, "explicit")), gotF[n]+"\n--- expected ---\n"+refF[n])
+			}
+		}
+		var printed2 string
+		fw.Try(func() { printed2 = m.String() })
+		if printed2 != printed {
+			c.Violation("renumbering-changes-text/api-no-globals", c08case{Form: "api-no-globals", What: "printing the API-built module a second time gives a different text"})
+		}
+		c.Valid(int64(len(shapes)))
+	}
 }
 
 // ---- module shapes -------------------------------------------------------------------------------
@@ -801,7 +908,7 @@ func runC08(c *fw.Check) {
 		shapes = append(shapes, c08shapes(maxP, 3, 3, 1, instKinds, termKinds)...)
 		deep = " plus ALL 3-block shapes with <=1 instruction per block,"
 	}
-	c.Rule = fmt.Sprintf("ALL function shapes with <=%d params (named/unnamed), <=%d blocks (named/unnamed), <=%d instructions per block"+deep+" over %d instruction kinds and %d terminator kinds (void and non-void, named and unnamed calls, invokes, callbrs, stores, fences), each emitted with explicit numbers from an independent 20-line model of LLVM's rule (validated by llvm-as on every shape), with implicit result numbers, with implicit block labels, and built through the API; ALL 256 named/unnamed shapes of an exception-handling funclet skeleton (catchswitch is the third value-producing terminator, catchpad a value-producing instruction) in the three textual forms; ALL module shapes of length <=%d over {named,unnamed} x {global, alias, ifunc, declaration, definition}, each also with attribute-group and metadata definitions (numbers of their own) written before and between the entities. Oracle: parser accepts every spelling LLVM accepts, String() does not panic, llvm-as accepts the printed numbering and reads the same functions (llvm-dis canonical form, so every %%N/@N is bound to the right value), numbering again changes nothing. distinct = shapes x forms.", maxP, maxB, maxI, len(instKinds), len(termKinds), modLen)
+	c.Rule = "API-built batches are printed twice: once in a module with a global table of the block addresses of every function, once in a module WITHOUT any global variable where the addresses are instruction operands of a function listed before. " + fmt.Sprintf("ALL function shapes with <=%d params (named/unnamed), <=%d blocks (named/unnamed), <=%d instructions per block"+deep+" over %d instruction kinds and %d terminator kinds (void and non-void, named and unnamed calls, invokes, callbrs, stores, fences), each emitted with explicit numbers from an independent 20-line model of LLVM's rule (validated by llvm-as on every shape), with implicit result numbers, with implicit block labels, and built through the API; ALL 256 named/unnamed shapes of an exception-handling funclet skeleton (catchswitch is the third value-producing terminator, catchpad a value-producing instruction) in the three textual forms; ALL module shapes of length <=%d over {named,unnamed} x {global, alias, ifunc, declaration, definition}, each also with attribute-group and metadata definitions (numbers of their own) written before and between the entities. Oracle: parser accepts every spelling LLVM accepts, String() does not panic, llvm-as accepts the printed numbering and reads the same functions (llvm-dis canonical form, so every %%N/@N is bound to the right value), numbering again changes nothing. distinct = shapes x forms.", maxP, maxB, maxI, len(instKinds), len(termKinds), modLen)
 	c.Extra["function_shapes"] = len(shapes)
 	const batch = 150
 	nb := (len(shapes) + batch - 1) / batch
